@@ -23,6 +23,11 @@ ALL_FORMS = [
     "__all__ = ['{a}', '{b}', 'not_defined_anywhere']\n",
     "if len('x') == 1:\n    __all__ = ['{a}', '{b}']\nelse:\n    __all__ = []\n",
     "try:\n    __all__ = ['{a}']\n    __all__ += ['{b}']\nexcept NameError:\n    pass\n",
+    "try:\n    import vf_no_such_module_for_all\nexcept ImportError:\n    __all__ = ['{a}', '{b}']\n",
+    "try:\n    __all__ = ['{a}']\nexcept NameError:\n    pass\nelse:\n    __all__ += ['{b}']\nfinally:\n    pass\n",
+    "match 1:\n    case 1:\n        __all__ = ['{a}', '{b}']\n    case _:\n        __all__ = []\n",
+    "with open('/dev/null') as all_handle:\n    __all__ = ['{a}', '{b}']\n",
+    "for all_index in range(1):\n    __all__ = ['{a}', '{b}']\n",
     "__all__ = ('{a}', '{b}')\n",
     "__all__ = '{a}', '{b}'\n",
     "import sys\nif sys.version_info >= (3, 0):\n    __all__ = ('{a}',)\n    __all__ += ('{b}',)\n",
